@@ -18,6 +18,8 @@ OPERAND_SETS = [
     ['-2', 'f(1)', 'a[0]', 'o.k', 'a->len'],
     ['(1 + 2)', 'a[0:1]', '-3', 'g(a, 1 + 2)', '[1, 2][0]'],
     ['f(1)(2)', 'o.k.j', 'a[0][1]', 'x', '(a)'],
+    ['-7->type()', '-2[0]', '-3.k', '-5(1)', '-1[0:1]'],
+    ['fn () { return 1; }()', 'fn (v) { return v; }', 'fn () { return 2; }->type()', '[fn () { return 3; }][0]()', '{"k": 1}.k'],
 ]
 
 def s_of(n): return bytes(b.v for b in n.d['b']).decode('utf-8', 'replace')
@@ -42,6 +44,14 @@ def canon_real(e, with_loc=True):
         o = lambda x: None if x.variant == 0 else canon_real(ub(x.fields[0]), with_loc)
         return ('rangeindex', canon_real(ub(f[0]), with_loc), o(f[1]), o(f[2]))
     if k == 'Prop': return ('prop', canon_real(ub(f[0]), with_loc), s_of(f[1]), bool(f[2]))
+    if k == 'Func': return ('fn', len(f[0].d['b']), bool(f[1]), len(f[2].d['b']))
+    if k == 'Object':
+        ps = []
+        for p in f[0].d['b']:
+            pk = ENUMS['PropItem'][p.variant]
+            if pk == 'Pair': ps.append(('pair', canon_real(p.fields[0], with_loc), canon_real(p.fields[1], with_loc)))
+            else: ps.append(('single', canon_real(p.fields[0], with_loc), bool(p.fields[1]), bool(p.fields[2])))
+        return ('object', tuple(ps))
     raise Unsupported('canon_real ' + k)
 def canon_ref(n, with_loc=True):
     k = n.kind
@@ -57,6 +67,13 @@ def canon_ref(n, with_loc=True):
     if k == 'index': return ('index', canon_ref(n.expr, with_loc), canon_ref(n.index, with_loc))
     if k == 'rangeindex': return ('rangeindex', canon_ref(n.expr, with_loc), None if n.start is None else canon_ref(n.start, with_loc), None if n.end is None else canon_ref(n.end, with_loc))
     if k == 'prop': return ('prop', canon_ref(n.expr, with_loc), n.name, n.type_prop)
+    if k == 'fn': return ('fn', len(n.params), n.collect, len(n.body))
+    if k == 'object':
+        ps = []
+        for p in n.props:
+            if p[0] == 'pair': ps.append(('pair', canon_ref(p[1], with_loc), canon_ref(p[2], with_loc)))
+            else: ps.append(('single', canon_ref(p[1], with_loc), p[2], p[3]))
+        return ('object', tuple(ps))
     raise Unsupported('canon_ref ' + k)
 
 def parse_real(M, text):
@@ -165,8 +182,11 @@ def seq_job(k, operands, laws, ops=None):
                 r2 = parse_real(M, t2)
                 if r2[0] == 'err' or canon_real(r2[1], False) != base: obs['viol'] = 'redundant parentheses change the tree: %r' % t2; return obs
             obs['checks'] += 1
-            t3 = unparse_min(base); r3 = parse_real(M, t3)
-            if r3[0] == 'err' or canon_real(r3[1], False) != base: obs['viol'] = 'minimal print-out %r does not parse back to the same tree' % t3; return obs
+            try: t3 = unparse_min(base)
+            except Unsupported: t3 = None           # (operands the printer does not cover: function / object / string literals)
+            if t3 is not None:
+                r3 = parse_real(M, t3)
+                if r3[0] == 'err' or canon_real(r3[1], False) != base: obs['viol'] = 'minimal print-out %r does not parse back to the same tree' % t3; return obs
         return obs
     def post(rows, res, binary, wd):
         for r in rows:
@@ -179,6 +199,20 @@ def seq_job(k, operands, laws, ops=None):
                 nat = F.native_run(binary, script, wd); ref = sem.run_concrete(script); res['replayed'] += 1
                 if ref[0] == 'unspecified' or (nat[0] == (0 if ref[0] == 'ok' else 103) and nat[1] == ref[1]): res['replay_ok'] += 1
                 else: res['inconclusive'].append('native evaluation of %r disagrees with the reference although the trees agree: %r vs %r' % (o['text'], (nat[0], nat[1][:60], nat[2][:120]), (ref[0], ref[1][:60])))
+            if o['viol'] and o['viol'].startswith('accepted by'):
+                # acceptance differs: a syntax error prevents every statement from running, so a leading print tells the two apart natively
+                from ref import front as _front
+                script0 = 'print(12345)\nn := null\nprint(%s)\n' % o['text']
+                nat0 = F.native_run(binary, script0, wd); res['replayed'] += 1
+                try: _front.parse_prog(script0); ref_accepts = True
+                except _front.RefSyntaxError: ref_accepts = False
+                except _front.FrontUnspecified: ref_accepts = None
+                nat_accepts = nat0[1].startswith(b'12345')
+                if ref_accepts is not None and ref_accepts != nat_accepts:
+                    res['replay_ok'] += 1
+                    res['violations'].append({'aspect': 'grouping', 'role': 'acceptance', 'what': '%s: %s | native: %r' % (o['text'], o['viol'], (nat0[0], (nat0[1] + nat0[2])[:120])), 'script': script0, 'ext': 'sd'})
+                else: res['inconclusive'].append('%s: %s (not reproduced natively)' % (o['text'], o['viol']))
+                continue
             if o['viol']:
                 # native confirmation: evaluate the expression with integer-valued names so that a different grouping shows
                 script = 'a := 7\nb := 3\nc := 2\nprint(%s)\n' % o['text']
@@ -208,7 +242,7 @@ def run(tier, seed):
     c.functions |= {'Lexer::*', 'lalrpop_util driver (model)', '__parse__Expr::__action', '__parse__Expr::__goto', '__parse__Expr::__reduce*', '__parse__Expr::__token_to_integer', '__parse__Expr::__token_to_symbol', 'parser::__action* (grammar actions)', 'ExprParser::parse'}
     jobs = []
     if tier == 'quick':
-        jobs += [seq_job(1, s, True) for s in OPERAND_SETS] + [seq_job(2, s, True) for s in OPERAND_SETS[:2]] + [seq_job(3, OPERAND_SETS[0], False, ['+', '*', '==', '<', '&&', '||', '..', '-'])]
+        jobs += [seq_job(1, s, True) for s in OPERAND_SETS] + [seq_job(2, s, True) for s in OPERAND_SETS[:2]] + [seq_job(2, s, False, ['+', '*', '==', '&&', '..', '-']) for s in OPERAND_SETS[4:]] + [seq_job(3, OPERAND_SETS[0], False, ['+', '*', '==', '<', '&&', '||', '..', '-'])]
     else:
         sub8 = ['+', '*', '==', '<', '&&', '||', '..', '-']
         jobs += [seq_job(1, s, True) for s in OPERAND_SETS] + [seq_job(2, s, True) for s in OPERAND_SETS] + [seq_job(3, OPERAND_SETS[0], True), seq_job(3, OPERAND_SETS[1], False, sub8 + ['%', '===', '>=', '/']), seq_job(4, OPERAND_SETS[0], False, sub8)]
